@@ -62,16 +62,18 @@ int c_aggregate(int nval, int operator, int maxnan, int * aggindex,
 
         if(isnan(inp))
         {
+            /* Missing values do not contribute to the aggregate */
             nagg_nan ++;
-            inp = 0;
-        } else
-            nagg ++;
+            continue;
+        }
+        nagg ++;
 
         if(operator<=1) {
             agg += inp;
         }
         else if (operator == 2){
-            agg = inp > agg ? inp : agg;
+            /* first valid value of the group or greater value */
+            agg = (nagg == 1 || inp > agg) ? inp : agg;
         }
         else if (operator == 3){
             agg = inp;
